@@ -90,7 +90,7 @@ func c02FailClosed(c *core.Ctx) {
 	n := 0
 	for _, e := range errEdges {
 		n++
-		start := core.Point{B: e.B.Succs[e.Succ], I: 0}
+		start, env0 := core.AfterEdge(e)
 		bad := (&core.Walk{Target: func(i ssa.Instruction) bool {
 			r, ok := i.(*ssa.Return)
 			if !ok {
@@ -98,12 +98,12 @@ func c02FailClosed(c *core.Ctx) {
 			}
 			v := pendingOf(r)
 			return v == nil || !isConstBool(v, true)
-		}, Stop: func(i ssa.Instruction) bool { _, isPhi := i.(*ssa.Phi); return false && isPhi }}).From(start, core.Env{})
+		}, Stop: func(i ssa.Instruction) bool { _, isPhi := i.(*ssa.Phi); return false && isPhi }}).From(start, env0)
 		// only the first return after the error edge matters: error edges return immediately in this function;
 		// a path that continues into the loop after an error is itself the violation
 		cont := (&core.Walk{Target: func(i ssa.Instruction) bool {
 			return core.IsCallTo(i, "(agglayer.AgglayerClientInterface).GetCertificateHeader", "(agglayer.AggLayerClientGetEpochConfiguration).GetCertificateHeader") || strings.HasSuffix(core.CallName(i), ").GetCertificateHeader")
-		}}).From(start, nil)
+		}}).From(start, env0)
 		construct := fmt.Sprintf("statuschecker.CheckPendingCertificatesStatus#error-edge@%s", guardName(firstInstr(start)))
 		switch {
 		case cont != nil:
@@ -331,6 +331,22 @@ func c02Submit(c *core.Ctx) {
 
 // ---- C02-next: height / previous LER / first block derivations -------------------------------------------------------
 
+// startLERok: the case is reached only after getStartLER returned no error.
+func startLERok(fn *ssa.Function, sx *core.Symx, rc core.RetCase, startLER string) bool {
+	okE := core.TermEdges(fn, sx, func(s string, _ *core.Term) bool { return s == "("+startLER+"#1 != const(nil))" }, false)
+	if len(okE) > 0 && rc.ReachableOnlyVia(fn, okE) {
+		return true
+	}
+	// the error travelled through a merge (helper expanded in place): find the getStartLER call whose value is returned
+	if ex, ok := rc.Values[1].(*ssa.Extract); ok && ex.Index == 0 {
+		if cl, ok := ex.Tuple.(*ssa.Call); ok {
+			probe := core.RetCase{Ret: rc.Ret, Pred: rc.Pred, Succ: rc.Succ, Values: []ssa.Value{core.ExtractOf(cl, 1)}}
+			return probe.Values[0] != nil && probe.NilTestedAfterSplit(fn, 0, true)
+		}
+	}
+	return false
+}
+
 func c02Next(c *core.Ctx) {
 	const rule = "C02-next"
 	fn := c.MustFn(rule, "aggsender/flows", "baseFlow", "getNextHeightAndPreviousLER")
@@ -369,6 +385,15 @@ func c02Next(c *core.Ctx) {
 		if strings.HasPrefix(errT, "fmt.Errorf(") || strings.HasPrefix(errT, "errors.New(") {
 			continue // refusing is always safe
 		}
+		if errT != "const(nil)" {
+			// an error handed through on its own failure edge is a refusal too
+			if ne := core.NilEdgesRes(fn, rc.Values[2], false); len(ne) > 0 && rc.ReachableOnlyVia(fn, ne) {
+				continue
+			}
+			if rc.NilTestedAfterSplit(fn, 2, false) {
+				continue
+			}
+		}
 		n++
 		construct := fmt.Sprintf("flows.getNextHeightAndPreviousLER#return(%s,%s)", core.NewSymx().Of(rc.Values[0]).Brief(), core.NewSymx().Of(rc.Values[1]).Brief())
 		okCase := false
@@ -381,6 +406,15 @@ func c02Next(c *core.Ctx) {
 		case h == last+".Height" && ler == "*"+last+".PreviousLocalExitRoot":
 			okCase = errT == "const(nil)" && only(rc, inErr, hasPrev, closed)
 			why = "same height / stored previous LER only for an in-error certificate that has one"
+		case ler == startLER+"#0" && (h == "const(0)" || h == last+".Height" && only(rc, h0)) &&
+			(errT == startLER+"#1" || errT == "const(nil)" && startLERok(fn, sx, rc, startLER)):
+			// first certificate: no last certificate, or an in-error one at height 0 without previous LER
+			firstEdges := append(append([]core.IfEdge{}, isNil...), h0...)
+			okCase = only(rc, firstEdges)
+			if okCase && !rc.ReachableOnlyVia(fn, isNil) {
+				okCase = only(rc, inErr, h0)
+			}
+			why = "height 0 / start LER only when there is no last certificate or it is in error at height 0"
 		case h == last+".Height":
 			prev := "(aggsender/db.AggSenderStorage).GetCertificateHeaderByHeight(f.storage, (" + last + ".Height - const(1)))"
 			prevSettled := edge("(agglayer/types.CertificateStatus).IsSettled("+prev+"#0.Status)", true)
@@ -390,14 +424,6 @@ func c02Next(c *core.Ctx) {
 			prevNonNil = append(prevNonNil, edge("("+prev+"#0 != const(nil))", true)...)
 			okCase = ler == prev+"#0.NewLocalExitRoot" && errT == "const(nil)" && only(rc, inErr, closed, prevSettled, prevErrNil, prevNonNil)
 			why = "same height / new LER of the stored certificate at height-1, which must exist and be settled"
-		case h == "const(0)" && ler == startLER+"#0" && errT == startLER+"#1":
-			// first certificate: no last certificate, or an in-error one at height 0 without previous LER
-			firstEdges := append(append([]core.IfEdge{}, isNil...), h0...)
-			okCase = only(rc, firstEdges)
-			if okCase && !rc.ReachableOnlyVia(fn, isNil) {
-				okCase = only(rc, inErr, h0)
-			}
-			why = "height 0 / start LER only when there is no last certificate or it is in error at height 0"
 		default:
 			why = "unexpected (height, previous LER) pair"
 		}
@@ -490,6 +516,7 @@ func c02LastSent(c *core.Ctx) {
 			return
 		}
 		found = true
+		bindLivePhis(sx, gp, call)
 		lit := sx.Of(call.Call.Args[1])
 		f := func(n string) string {
 			if lit.Fields[n] == nil {
